@@ -144,6 +144,8 @@ PROPS["C06"] = {
         {"pkg": ".", "dir": "s3db", "entry": "VerifH_C06_txn_same_time",
          "quick": {"params": "stmts=2", "workers": 8, "timeout": 600},
          "thorough": {"params": "stmts=3", "workers": 16, "timeout": 1800}},
+        {"pkg": ".", "dir": "s3db", "entry": "VerifH_C06_scan", "tag": "-empty-table",
+         "quick": {"params": "keys=0,constraints=2,maxlayer=1,nulls=1,reopen=0,dels=1,orders=3", "workers": 4, "timeout": 600}},
         {"pkg": ".", "dir": "s3db", "entry": "VerifH_C06_scan", "tag": "-2cons",
          "quick": {"params": "keys=2,constraints=2,maxlayer=1,nulls=0,reopen=0,dels=1,orders=3", "workers": 16, "timeout": 1200}},
     ],
